@@ -103,6 +103,13 @@ def rule_operators(ctx):
                     continue
                 out, node = rets[0].value, rets[0].node
                 ctx.check("C01.3", out.cls == cls, m, node, f"{case} result class = {out.cls}", "receiver's dynamic class", f"result is a {out.cls}, not the receiver's class {cls}")
+                if cls == "optical_signal" and "n_pol" in out.fields:
+                    npv = out.fields["n_pol"]
+                    npa = npv.single_atom() if isinstance(npv, Form) else None
+                    ok_np = (isinstance(npv, Form) and (npv == S("self.n_pol") or npv == S("other.n_pol") or (npa is not None and npa[0] == "fn" and npa[1] == "n_pol_of") or npv.rational() in (1, 2))) \
+                        or (isinstance(npv, Const) and npv.v is None)
+                    ctx.check("C01.3", ok_np, m, node, f"{case} result n_pol = {npv!r}"[:200], "the operands' polarisation layout (given or derived from the array)",
+                              f"the result's polarisation count is {npv!r}: not the operand's layout nor derived from the array (an argument landed in the n_pol slot of the constructor), so slicing the result misreads its layout"[:400])
                 if meth in ("__mul__", "__rmul__"):
                     sig = out.fields.get("signal")
                     ctx.check("C01.5", isinstance(sig, Form) and sig == S("self.signal") * S("other.signal"), m, node, f"{case} signal = {sig!r}", "product of the signals", "signal part is not self.signal*other.signal")
